@@ -65,9 +65,40 @@ def module_constants(module):
             if isinstance(t, ast.Name):
                 count[t.id] = count.get(t.id, 0) + 1
                 v = getattr(n, 'value', None)
-                if isinstance(n, ast.Assign) and isinstance(v, ast.Constant) and isinstance(v.value, (int, str, bool)):
-                    vals[t.id] = v.value
+                if isinstance(n, ast.Assign):
+                    cv = _const_value(v)
+                    if cv is not None:
+                        vals[t.id] = cv
     return {k: v for k, v in vals.items() if count.get(k) == 1}
+
+
+def _const_value(node):
+    """int / str / bool literal, or integer arithmetic over literals (1 << 16, 4 * 1024, -1): None for anything else"""
+    if isinstance(node, ast.Constant) and isinstance(node.value, (int, str, bool)):
+        return node.value
+    if isinstance(node, ast.UnaryOp) and isinstance(node.op, ast.USub):
+        v = _const_value(node.operand)
+        return -v if isinstance(v, int) and not isinstance(v, bool) else None
+    if isinstance(node, ast.BinOp):
+        a, b = _const_value(node.left), _const_value(node.right)
+        if not all(isinstance(x, int) and not isinstance(x, bool) for x in (a, b)):
+            return None
+        try:
+            if isinstance(node.op, ast.Add):
+                return a + b
+            if isinstance(node.op, ast.Sub):
+                return a - b
+            if isinstance(node.op, ast.Mult):
+                return a * b
+            if isinstance(node.op, ast.LShift) and 0 <= b <= 64:
+                return a << b
+            if isinstance(node.op, ast.Pow) and 0 <= b <= 64:
+                return a ** b
+            if isinstance(node.op, ast.FloorDiv) and b != 0:
+                return a // b
+        except Exception:      # noqa
+            return None
+    return None
 
 
 def find_function(module, qualname):
